@@ -1,5 +1,6 @@
 import Ebu.Spec.Locks
 import Ebu.Generated.Consts
+import Ebu.Model.Inflight
 import Ebu.Proofs.Locks
 /-!
 C03 — Concurrent use of the API is free of data races and deadlocks.
@@ -52,6 +53,21 @@ theorem facts_callbacks_lock_free : CallbacksOk callbackFacts = true := by decid
 /-- OBLIGATION: upcaster validation and insertion are one write-locked critical section
 (racing registrations are therefore sequentially consistent: C16's acyclicity carries over) -/
 theorem facts_register_atomic : RegisterAtomic accessFacts = true := by decide
+
+/-- OBLIGATION: Subscribe, SubscribeContext, Unsubscribe, Clear and ClearAll each look up and update the registry
+inside ONE write-locked critical section (an `Unsubscribe` that finds its handler under one lock acquisition and
+removes "the element at that index" under another removes somebody else's registration when two removals overlap);
+this is what lets the interleaving model M2 treat them as single atomic steps -/
+theorem facts_registry_ops_atomic : RegistryOpsAtomic accessFacts = true := by decide
+
+/-- OBLIGATION + consequence: `inflight.done` in the current source broadcasts when the count reaches zero and
+`inflight.wait` re-checks the count in a loop; hence (M2w, `Ebu/Model/Inflight.lean`) with any number of goroutines
+in `Wait` and under every schedule nobody stays parked on the condition variable while nothing is in flight – `Wait`
+cannot deadlock by a lost wake-up (with `Signal` it can: `Ebu.Inflight.signal_loses_wakeup`) -/
+theorem wait_wakes_every_waiter (ops : List Ebu.Inflight.Op) :
+    Ebu.Generated.Consts.inflightDoneWake = "Broadcast" ∧ Ebu.Generated.Consts.inflightWaitRechecks = true ∧
+    Ebu.Inflight.NoLostWakeup (Ebu.Inflight.run .broadcast ops) :=
+  ⟨by decide, by decide, Ebu.Inflight.broadcast_no_lost_wakeup ops⟩
 
 /-- OBLIGATION: locks are nested only along one fixed order: no lock-order cycle -/
 theorem facts_nesting_ordered : NestingOk nestingFacts = true := by decide
